@@ -1336,8 +1336,12 @@ def is_kanji(data):
         return False
     data_iter = iter(data)
     for i in range(0, data_len, 2):
-        code = (next(data_iter) << 8) | next(data_iter)
+        lead, trail = next(data_iter), next(data_iter)
+        code = (lead << 8) | trail
         if not (0x8140 <= code <= 0x9ffc or 0xe040 <= code <= 0xebbf):
+            return False
+        # The second byte of a Shift JIS double-byte character is 0x40 .. 0xFC (0x7F excluded)
+        if not 0x40 <= trail <= 0xfc or trail == 0x7f:
             return False
     return True
 
